@@ -249,19 +249,30 @@ Definition sc_traverse (roots : list bytes) (ls : list block) : list cb * N :=
 
 Definition cb_section (c : cb) : bytes := enc_section (cb_cid c) (cb_data c).  (* util.LdWrite *)
 
-(* SelectiveCar.Write: bytes sent to w, the Blocks the user callbacks saw, ok *)
-Definition sc_write (roots : list bytes) (ls : list block) (ok : bool) : bytes * list cb * bool :=
+(* One Block is handed to EVERY registered user callback, in registration order: the event
+   log of a run is the list of (callback index, Block) in call order. *)
+Definition fanout (k : nat) (b : cb) : list (nat * cb) := map (fun i => (i, b)) (seq 0 k).
+(* what callback number i was told, in order *)
+Definition reports (i : nat) (evs : list (nat * cb)) : list cb :=
+  map snd (filter (fun e => Nat.eqb (fst e) i) evs).
+
+(* SelectiveCar.Write(w, cb_0 .. cb_{k-1}): bytes sent to w, callback event log, ok.
+   onNewCarBlock = LdWrite, then the loop over the user callbacks with the same Block. *)
+Definition sc_write (k : nat) (roots : list bytes) (ls : list block) (ok : bool)
+  : bytes * list (nat * cb) * bool :=
   let r := sc_traverse roots ls in
-  (ld (enc_header (Some roots) 1) ++ concat (map cb_section (fst r)), fst r, ok).
+  (ld (enc_header (Some roots) 1) ++ concat (map cb_section (fst r)), flat_map (fanout k) (fst r), ok).
 
 (* SelectiveCar.Prepare: None = error; Some (Size(), Header().Roots, Cids()) *)
 Definition sc_prepare (roots : list bytes) (ls : list block) (ok : bool)
   : option (N * list bytes * list bytes) :=
   if ok then let r := sc_traverse roots ls in Some (snd r, roots, map cb_cid (fst r)) else None.
 
-(* SelectiveCarPrepared.Dump: fetches every prepared cid from the store again *)
-Fixpoint sc_dump_blocks (store : bytes -> option bytes) (off : N) (cids : list bytes)
-  : bytes * list cb * bool :=
+(* SelectiveCarPrepared.Dump with the k callbacks given to Prepare: fetches every prepared cid
+   from the store again; per block: LdSize, LdWrite, the loop over the callbacks (all with the
+   same Offset), and only then offset += size. *)
+Fixpoint sc_dump_blocks (k : nat) (store : bytes -> option bytes) (off : N) (cids : list bytes)
+  : bytes * list (nat * cb) * bool :=
   match cids with
   | [] => ([], [], true)
   | c :: t =>
@@ -269,16 +280,16 @@ Fixpoint sc_dump_blocks (store : bytes -> option bytes) (off : N) (cids : list b
     | None => ([], [], false)
     | Some raw =>
       let size := ld_size (blen c + blen raw) in
-      match sc_dump_blocks store (off + size) t with
-      | (bs, cbs, ok) => (enc_section c raw ++ bs, mkcb c raw off size :: cbs, ok)
+      match sc_dump_blocks k store (off + size) t with
+      | (bs, evs, ok) => (enc_section c raw ++ bs, fanout k (mkcb c raw off size) ++ evs, ok)
       end
     end
   end.
-Definition sc_dump (store : bytes -> option bytes) (roots : list bytes) (cids : list bytes)
-  : bytes * list cb * bool :=
+Definition sc_dump (k : nat) (store : bytes -> option bytes) (roots : list bytes) (cids : list bytes)
+  : bytes * list (nat * cb) * bool :=
   let hb := enc_header (Some roots) 1 in
-  match sc_dump_blocks store (ld_size (blen hb)) cids with
-  | (bs, cbs, ok) => (ld hb ++ bs, cbs, ok)
+  match sc_dump_blocks k store (ld_size (blen hb)) cids with
+  | (bs, evs, ok) => (ld hb ++ bs, evs, ok)
   end.
 
 (* ---- root module: car.go WriteCar / WriteCarWithWalker -------------------------------- *)
